@@ -28,7 +28,7 @@ RULE = ("seeded products (levels 1.1/1.5, all records randomly filled). (a) blan
 ASSUMPTIONS = ["nullable = ASCII numeric / text fields that are not counts, lengths, enumerated codes, flag columns (fields the spec "
                "converts to bool) or date-time texts; binary prefix fields have no blank representation",
                "text areas get printable ASCII only; numeric spares get valid numbers"]
-REQUIRED_OBS = ["blank_single", "blank_subset", "repad_triples", "leaves_compared"]
+REQUIRED_OBS = ["blank_single", "blank_subset", "repad_triples", "leaves_compared", "influence_bytes"]
 CASE_TIMEOUT = 900
 N = {"quick": 150, "thorough": 1500}
 
@@ -106,7 +106,7 @@ def check_product(files, info, problems, kind="memory"):
 
 
 def n_cases(tier, seed):
-    return N[tier] + (64 if tier == "thorough" else 0)
+    return N[tier] + (64 if tier == "thorough" else 16)
 
 
 def run_case(i, tier, seed):
@@ -115,6 +115,9 @@ def run_case(i, tier, seed):
     violations, sigs = [], []
     level = ["1.1", "1.5"][i % 2]
     if i >= N[tier]:
+        if tier == "quick":
+            # a thinned influence map: 16 of the 64 slices, every 5th position of each (the thorough tier substitutes every byte)
+            return _influence_case((i - N[tier]) * 4 + seed % 4, tier, seed, rng, obs, thin=5)
         return _influence_case(i - N[tier], tier, seed, rng, obs)
     mode = ["single", "subset", "repad"][i % 3]
     sample = None
@@ -199,7 +202,7 @@ def _owner_leaves():
     return owners
 
 
-def _influence_case(j, tier, seed, rng, obs):
+def _influence_case(j, tier, seed, rng, obs, thin=1):
     """one slice of the byte positions of one file: substitute each byte by another character of its class, diff the
     canon, and require the changed leaves to be a subset of the leaves the spec assigns to the owning field"""
     from vf import speclib
@@ -225,7 +228,7 @@ def _influence_case(j, tier, seed, rng, obs):
         node = expect.spec("image")["IU2"]["nodes"][0]
         for name, v in node["attrs"].items():
             if isinstance(v.get("src"), str) and v["src"].startswith("fd:"):
-                owners.setdefault(v["src"], set()).add(f"/imagery/HH@{name}")
+                owners.setdefault(v["src"], set()).add(f"/imagery/{harness.group_name(target)}@{name}")
     base_bytes = files[target]
     owner_of = {}
     limit = len(base_bytes) if target != names["imgs"][0] else 720
@@ -239,7 +242,7 @@ def _influence_case(j, tier, seed, rng, obs):
     fs = fsspec.filesystem("memory")
     try:
         base = canon.canon(harness.open_tree(url, use_cache=False))
-        for pos in range(off0, limit, stride):
+        for pos in range(off0 + stride * (seed % thin), limit, stride * thin):
             s_, rec = owner_of.get(pos, (None, None))
             if s_ is None or ":preamble." in s_:
                 continue
